@@ -4,7 +4,7 @@ from ._famprop import make
 
 
 def FAMS(tier):
-    return ["W", "WO", "WS", "WM", "U"]
+    return ["W", "WO", "WS", "WM", "WU", "U", "H"]
 
 
 run, replay = make(
